@@ -1,0 +1,19 @@
+//go:build verif
+
+package shaping
+
+// Read-only accessors used by the C07 verification harness (itemization).
+
+// VerifLookupDelimIndex exposes lookupDelimIndex: the index of ch in the paired
+// delimiters table (even = opening, odd = closing), or -1.
+func VerifLookupDelimIndex(ch rune) int { return lookupDelimIndex(ch) }
+
+// VerifIgnoreFaceChange exposes ignoreFaceChange.
+func VerifIgnoreFaceChange(r rune) bool { return ignoreFaceChange(r) }
+
+// VerifPairedDelims returns a copy of the paired delimiters table.
+func VerifPairedDelims() []rune { return append([]rune(nil), pairedDelims[:]...) }
+
+// VerifDelimStackLen returns the number of entries left on the delimiter stack
+// by the last call to Split.
+func (seg *Segmenter) VerifDelimStackLen() int { return len(seg.delimStack) }
